@@ -12,7 +12,8 @@ exactly the documented list and nothing else.
 
 from dsim import domgen, domworld, gen, pipe
 from dsim import refmodel as R
-from dsim.actors import exc_summary, sized_reader_cls
+from dsim.actors import (LOAD_STREAMS, exc_summary, load_stream,
+                         sized_reader_cls)
 from dsim.world import SimReadHandle
 
 ID = 'C05'
@@ -48,7 +49,8 @@ def generate(rng, tier, cls):
             'block_size': rng.choice([None, None, 1, 13, 97]),
             'dom_values': rng.choice([None] * 8 + ['sub', 'same']),
             'via': rng.choice(['from_stream', 'from_stream', 'from_bytes',
-                               'shared_reader', 'subclass'])}
+                               'shared_reader', 'subclass']),
+            'stream': rng.choice(LOAD_STREAMS)}
 
 
 def sect_states(out, snap):
@@ -243,7 +245,10 @@ def execute(scn, L):
 
     # parse it back over a sim handle
     via = scn.get('via', 'from_stream')
-    h = SimReadHandle(w, data, 'loader')
+    h = load_stream(w, scn.get('stream'), data, 'loader')
+
+    if scn.get('stream'):
+        out.probe('loaded_from_stream_kind:%s' % (scn['stream'],))
 
     try:
         if via == 'from_bytes':
